@@ -108,7 +108,7 @@ def check(run, replay_path=None):
     res = run_tlc('ContextMC', 'Context_mc.cfg', coverage=True, timeout=1800)
     run.add_tlc(res, ['SetLocation', 'SetContextState'])
     num = run.pick(150, 4000)
-    pool = run.pick(3000, 12000)
+    pool = run.pick(800, 12000)
     res = run_tlc('ContextSim', 'Context_sim.cfg', workers=1, simulate=f'num={pool}', depth=16, seed=run.seed)
     run.add_tlc(res)
     behs = json_lines(res.stdout, 'BEH')
